@@ -420,6 +420,17 @@ pub struct Layout {
     pub pct_write_blank: u8,
     /// write `<f>` before `<v>` (Excel's order). `false` is *not* a legal variation for calamine (the last child wins)
     pub formula_first: bool,
+    /// chance, element by element, that the attributes of a `<c>`, `<row>`, `<xf>` or `<numFmt>` are written in a
+    /// random order instead of the customary one (`r s t`, `r spans ht`, `numFmtId … xfId`, `numFmtId formatCode`);
+    /// attribute order carries no meaning in XML. Drawn from a private stream (`seed`), so the other knobs render
+    /// the same bytes whatever this one says.
+    pub pct_attr_shuffle: u8,
+    /// chance, element by element, of inert extra attributes: `cm vm ph` on `<c>`, `customHeight customFormat hidden`
+    /// on `<row>`, `fontId fillId borderId applyNumberFormat` on `<xf>` (values that change nothing a reader of cell
+    /// values may look at)
+    pub pct_attr_extra: u8,
+    /// chance that a number cell WITH a style carries an explicit `t="n"` (on top of `pct_t_n`)
+    pub pct_t_n_styled: u8,
 }
 
 impl Layout {
@@ -446,13 +457,20 @@ impl Layout {
             pct_noise: 0,
             pct_write_blank: 100,
             formula_first: true,
+            pct_attr_shuffle: 0,
+            pct_attr_extra: 0,
+            pct_t_n_styled: 0,
         }
     }
     /// every knob randomised (legal variations only)
     pub fn random(rng: &mut Rng) -> Layout {
         let pct = |rng: &mut Rng| *rng.pick(&[0u8, 0, 20, 50, 80, 100, 100]);
+        let seed = rng.next();
+        // the attribute knobs are derived from `seed`, not drawn from the caller's stream: every case generated
+        // before these knobs existed keeps its other choices
+        let mut own = Rng(seed ^ 0xA77A_0D3E_51F7_2B19);
         Layout {
-            seed: rng.next(),
+            seed,
             prefix: if rng.chance(1, 3) { "x".into() } else { String::new() },
             rel_prefix: rng.pick(&["r", "r", "relationships", "rel"]).to_string(),
             part_case: *rng.pick(&[PartCase::Canonical, PartCase::Canonical, PartCase::Capitalised, PartCase::Upper]),
@@ -472,16 +490,20 @@ impl Layout {
             pct_noise: *rng.pick(&[0u8, 0, 30]),
             pct_write_blank: pct(rng),
             formula_first: true,
+            pct_attr_shuffle: *own.pick(&[0u8, 0, 50, 100, 100]),
+            pct_attr_extra: *own.pick(&[0u8, 0, 30, 100]),
+            pct_t_n_styled: *own.pick(&[0u8, 50, 100]),
         }
     }
     /// short description for counters / failure signatures
     pub fn describe(&self) -> String {
         format!(
-            "pre={} rel={} case={:?} target={:?} zip={:?} dim={:?} rowref={} cellref={} lower={} swap={} dedupe={} rich={} emptysi={} tn={} selfclose={} ws={} noise={} blank={}",
+            "pre={} rel={} case={:?} target={:?} zip={:?} dim={:?} rowref={} cellref={} lower={} swap={} dedupe={} rich={} emptysi={} tn={} selfclose={} ws={} noise={} blank={} attrshuffle={} attrextra={} tnstyled={}",
             if self.prefix.is_empty() { "-" } else { &self.prefix },
             self.rel_prefix, self.part_case, self.target, self.compression, self.dimension, self.pct_row_ref,
             self.pct_cell_ref, self.pct_lower_ref, self.pct_swap_string_store, self.pct_sst_dedupe, self.pct_rich,
-            self.pct_empty_si, self.pct_t_n, self.pct_self_close, self.pct_whitespace, self.pct_noise, self.pct_write_blank
+            self.pct_empty_si, self.pct_t_n, self.pct_self_close, self.pct_whitespace, self.pct_noise, self.pct_write_blank,
+            self.pct_attr_shuffle, self.pct_attr_extra, self.pct_t_n_styled
         )
     }
     fn q(&self, n: &str) -> String {
@@ -503,6 +525,31 @@ impl Layout {
 fn roll(rng: &mut Rng, pct: u8) -> bool {
     pct >= 100 || (pct > 0 && rng.below(100) < pct as u64)
 }
+
+/// private stream for the attribute knobs of one part (keeps the main stream, hence every other choice, unchanged)
+fn attr_rng(l: &Layout, salt: &str) -> Rng {
+    Rng(l.seed ^ 0x5DEE_CE66_D1CE_4E5B ^ crate::fnv64(salt.as_bytes()))
+}
+
+/// the attribute list of one element under the attribute knobs: inert extras (each with chance 1/2 once the element
+/// was picked), then possibly a random order
+fn arrange(l: &Layout, arng: &mut Rng, mut attrs: Vec<(String, String)>, extras: &[(&str, &str)]) -> Vec<(String, String)> {
+    if roll(arng, l.pct_attr_extra) {
+        for (k, v) in extras {
+            if arng.chance(1, 2) && !attrs.iter().any(|(k0, _)| k0 == k) {
+                attrs.push((k.to_string(), v.to_string()));
+            }
+        }
+    }
+    if roll(arng, l.pct_attr_shuffle) {
+        arng.shuffle(&mut attrs);
+    }
+    attrs
+}
+
+const C_EXTRAS: [(&str, &str); 3] = [("cm", "0"), ("vm", "0"), ("ph", "0")];
+const ROW_EXTRAS: [(&str, &str); 3] = [("customHeight", "1"), ("customFormat", "0"), ("hidden", "0")];
+const XF_EXTRAS: [(&str, &str); 4] = [("fontId", "0"), ("fillId", "0"), ("borderId", "0"), ("applyNumberFormat", "1")];
 
 // ------------------------------------------------------------------------------------------------
 // rendering
@@ -576,6 +623,7 @@ fn ws(l: &Layout, rng: &mut Rng, out: &mut Vec<Ev>) {
 /// (`row_index`, `col_index`) already equals the intended position — the legality condition of the format.
 pub fn render_sheet(sheet: &XlsxSheet, l: &Layout, rng: &mut Rng, sst: &mut Sst) -> Vec<Ev> {
     let mut out = Vec::new();
+    let mut arng = attr_rng(l, &sheet.name);
     let (nk, nv) = l.ns_attr();
     let mut root_attrs = vec![(nk, nv)];
     root_attrs.push((format!("xmlns:{}", if l.rel_prefix.is_empty() { "r" } else { &l.rel_prefix }), NS_REL.to_string()));
@@ -635,6 +683,7 @@ pub fn render_sheet(sheet: &XlsxSheet, l: &Layout, rng: &mut Rng, sst: &mut Sst)
         if roll(rng, l.pct_noise) {
             attrs.push(("ht".into(), "15".into()));
         }
+        let attrs = arrange(l, &mut arng, attrs, &ROW_EXTRAS);
         out.push(Ev::Start(l.q("row"), attrs));
         // after an explicit `r` on the row, or on a sequential row, the row cursor is `r`
         let mut col_index: u32 = 0;
@@ -650,7 +699,7 @@ pub fn render_sheet(sheet: &XlsxSheet, l: &Layout, rng: &mut Rng, sst: &mut Sst)
             if let Some(s) = cell.style {
                 attrs.push(("s".into(), s.to_string()));
             }
-            render_cell(cell, l, rng, sst, attrs, &mut out);
+            render_cell(cell, l, rng, &mut arng, sst, attrs, &mut out);
             col_index = c + 1;
         }
         ws(l, rng, &mut out);
@@ -676,7 +725,7 @@ pub fn render_sheet(sheet: &XlsxSheet, l: &Layout, rng: &mut Rng, sst: &mut Sst)
     out
 }
 
-fn render_cell(cell: &XCell, l: &Layout, rng: &mut Rng, sst: &mut Sst, mut attrs: Vec<(String, String)>, out: &mut Vec<Ev>) {
+fn render_cell(cell: &XCell, l: &Layout, rng: &mut Rng, arng: &mut Rng, sst: &mut Sst, mut attrs: Vec<(String, String)>, out: &mut Vec<Ev>) {
     let c = l.q("c");
     let v = l.q("v");
     let f_events = |out: &mut Vec<Ev>| {
@@ -696,11 +745,11 @@ fn render_cell(cell: &XCell, l: &Layout, rng: &mut Rng, sst: &mut Sst, mut attrs
             out.push(end(&l.q("f")));
         }
     };
-    let simple = |t: Option<&str>, val: &str, mut attrs: Vec<(String, String)>, out: &mut Vec<Ev>| {
+    let simple = |t: Option<&str>, val: &str, mut attrs: Vec<(String, String)>, arng: &mut Rng, out: &mut Vec<Ev>| {
         if let Some(t) = t {
             attrs.push(("t".into(), t.into()));
         }
-        out.push(Ev::Start(c.clone(), attrs));
+        out.push(Ev::Start(c.clone(), arrange(l, arng, attrs, &C_EXTRAS)));
         if l.formula_first {
             f_events(out);
         }
@@ -714,13 +763,13 @@ fn render_cell(cell: &XCell, l: &Layout, rng: &mut Rng, sst: &mut Sst, mut attrs
         }
         out.push(end(&c));
     };
-    let shared = |s: &str, attrs: Vec<(String, String)>, rng: &mut Rng, sst: &mut Sst, out: &mut Vec<Ev>| {
+    let shared = |s: &str, attrs: Vec<(String, String)>, rng: &mut Rng, arng: &mut Rng, sst: &mut Sst, out: &mut Vec<Ev>| {
         let idx = sst.index_of(s, roll(rng, l.pct_sst_dedupe));
-        simple(Some("s"), &idx.to_string(), attrs, out);
+        simple(Some("s"), &idx.to_string(), attrs, arng, out);
     };
-    let inline = |s: &str, mut attrs: Vec<(String, String)>, rng: &mut Rng, out: &mut Vec<Ev>| {
+    let inline = |s: &str, mut attrs: Vec<(String, String)>, rng: &mut Rng, arng: &mut Rng, out: &mut Vec<Ev>| {
         attrs.push(("t".into(), "inlineStr".into()));
-        out.push(Ev::Start(c.clone(), attrs));
+        out.push(Ev::Start(c.clone(), arrange(l, arng, attrs, &C_EXTRAS)));
         f_events(out);
         out.push(start(&l.q("is"), &[]));
         string_item_events(l, rng, s, out);
@@ -729,32 +778,32 @@ fn render_cell(cell: &XCell, l: &Layout, rng: &mut Rng, sst: &mut Sst, mut attrs
     };
     match &cell.value {
         XVal::Empty => {
-            out.push(Ev::Start(c.clone(), std::mem::take(&mut attrs)));
+            out.push(Ev::Start(c.clone(), arrange(l, arng, std::mem::take(&mut attrs), &C_EXTRAS)));
             f_events(out);
             out.push(end(&c));
         }
         XVal::Num(t) => {
-            let tn = roll(rng, l.pct_t_n);
-            simple(if tn { Some("n") } else { None }, t, attrs, out)
+            let tn = roll(rng, l.pct_t_n) || (cell.style.is_some() && roll(arng, l.pct_t_n_styled));
+            simple(if tn { Some("n") } else { None }, t, attrs, arng, out)
         }
         XVal::SharedStr(s) => {
             if roll(rng, l.pct_swap_string_store) {
-                inline(s, attrs, rng, out)
+                inline(s, attrs, rng, arng, out)
             } else {
-                shared(s, attrs, rng, sst, out)
+                shared(s, attrs, rng, arng, sst, out)
             }
         }
         XVal::InlineStr(s) => {
             if roll(rng, l.pct_swap_string_store) {
-                shared(s, attrs, rng, sst, out)
+                shared(s, attrs, rng, arng, sst, out)
             } else {
-                inline(s, attrs, rng, out)
+                inline(s, attrs, rng, arng, out)
             }
         }
-        XVal::FormulaStr(s) => simple(Some("str"), s, attrs, out),
-        XVal::Bool(b) => simple(Some("b"), if *b { "1" } else { "0" }, attrs, out),
-        XVal::Err(e) => simple(Some("e"), e, attrs, out),
-        XVal::IsoDate(d) => simple(Some("d"), d, attrs, out),
+        XVal::FormulaStr(s) => simple(Some("str"), s, attrs, arng, out),
+        XVal::Bool(b) => simple(Some("b"), if *b { "1" } else { "0" }, attrs, arng, out),
+        XVal::Err(e) => simple(Some("e"), e, attrs, arng, out),
+        XVal::IsoDate(d) => simple(Some("d"), d, attrs, arng, out),
     }
 }
 
@@ -779,12 +828,14 @@ pub fn render_sst(sst: &Sst, l: &Layout, rng: &mut Rng) -> Vec<Ev> {
 
 pub fn render_styles(book: &XlsxBook, l: &Layout) -> Vec<Ev> {
     let mut out = Vec::new();
+    let mut arng = attr_rng(l, "xl/styles.xml");
     let (nk, nv) = l.ns_attr();
     out.push(Ev::Start(l.q("styleSheet"), vec![(nk, nv)]));
     if !book.num_fmts.is_empty() {
         out.push(Ev::Start(l.q("numFmts"), vec![("count".into(), book.num_fmts.len().to_string())]));
         for (id, code) in &book.num_fmts {
-            out.push(Ev::Start(l.q("numFmt"), vec![("numFmtId".into(), id.to_string()), ("formatCode".into(), code.clone())]));
+            let attrs = arrange(l, &mut arng, vec![("numFmtId".into(), id.to_string()), ("formatCode".into(), code.clone())], &[]);
+            out.push(Ev::Start(l.q("numFmt"), attrs));
             out.push(end(&l.q("numFmt")));
         }
         out.push(end(&l.q("numFmts")));
@@ -796,7 +847,8 @@ pub fn render_styles(book: &XlsxBook, l: &Layout) -> Vec<Ev> {
     out.push(end(&l.q("cellStyleXfs")));
     out.push(Ev::Start(l.q("cellXfs"), vec![("count".into(), book.cell_xfs.len().to_string())]));
     for id in &book.cell_xfs {
-        out.push(Ev::Start(l.q("xf"), vec![("numFmtId".into(), id.to_string()), ("xfId".into(), "0".into())]));
+        let attrs = arrange(l, &mut arng, vec![("numFmtId".into(), id.to_string()), ("xfId".into(), "0".into())], &XF_EXTRAS);
+        out.push(Ev::Start(l.q("xf"), attrs));
         out.push(end(&l.q("xf")));
     }
     out.push(end(&l.q("cellXfs")));
